@@ -36,7 +36,10 @@ func (fr *frame) freshResults(st *state, sig *types.Signature, name string) []st
 	var out []string
 	for i, s := range ss {
 		v := fr.fc.sc.declare("ret_"+name, s)
+		// whether a returned slice or map is shared is not known (a contract may say local(result))
+		fr.noEsc = true
 		fr.typeInv(st, v, s, ts[i], false)
+		fr.noEsc = false
 		out = append(out, v)
 	}
 	return out
